@@ -6,6 +6,10 @@ Streams (real pydl code next to the Lean model lean/PydlVerif/Model/BSplineFit.l
             the model's assembled alpha/beta against an independently built A^T W A / A^T W y
   refit     ill-posed problems: fit is called again while it answers -1 (as iterfit does), every round compared
   chol      cholesky_band / cholesky_solve on SPD, indefinite, non-finite banded matrices
+  fitq      EXACT run: the same model fit in rational arithmetic (driver op fitq, square-root-free banded LDL^T
+            kernels) on small well-posed cases; status, coeff, yfit, alpha, beta must EQUAL an independent exact
+            solution of the normal equations (Cox-de Boor design matrix, A^T W A, Gaussian elimination, all in
+            fractions.Fraction); the real float fit must be within tolerance of that exact solution
 Oracle (no pydl, no model): dense weighted lstsq on the design matrix from scipy.interpolate.BSpline.design_matrix
 (left-continuous convention through the mirrored knot vector), objective comparison, zero-weight invariance,
 linearity in y, polynomial reproduction, residuals |LL^T-A|, |Ax-b|, leading-minor test for the reported column,
@@ -22,19 +26,29 @@ P = 'PydlVerif.C09.'
 THEOREMS = [P + t for t in (
     'assemble_is_normal', 'normal_of_band', 'CholContract.solves', 'fit_optimum_design', 'design_row_is_spline', 'fit_optimum',
     'fit_normal', 'fit_zero_weight', 'fit_linear', 'fit_exact', 'poly_reproduction',
-    'insideIdx_range', 'maskpoints_status', 'fit_too_few', 'choleskyBand_screen', 'choleskyBand_total', 'fit_status', 'fit_status0')]
+    'insideIdx_range', 'maskpoints_status', 'fit_too_few', 'choleskyBand_screen', 'choleskyBand_total', 'fit_status', 'fit_status0',
+    # extension round: `Rows` discharged (C08 rowsOf_action), Marsden / all degrees, the statement about `fit` itself
+    'rows_action', 'assemble_is_normal_action', 'fit_optimum_sorted', 'fit_normal_sorted', 'fit_zero_weight_sorted', 'fit_linear_sorted',
+    'fit_exact_sorted', 'marsden', 'monomial_reproduction', 'poly_in_span', 'spline_of_poly', 'poly_reproduction_all',
+    'poly_reproduction_sorted', 'fit_optimum_solves', 'fit_is_optimum', 'putGood_get', 'fit_obj_fields', 'fit_is_optimum_obj',
+    'exact_of_optimum', 'fit_reproduces_poly')]
 RULE = ('fit cases = (order 1..6) x (sorted abscissae: uniform/random/clustered/duplicated, several scales) x (breakpoints from '
         'bkspace/nbkpts/everyn/explicit bkpt through the real constructor) x (y: polynomial below/at the order, smooth+noise, random) x '
         '(invvar: ones, random positive, with zeros, zero over a stretch, all zero); ill-posed cases = gaps wider than the spacing, '
         'emptied segments, fewer points than coefficients, masked breakpoints, refitted while the status is -1; chol cases = banded '
         'SPD matrices of bandwidth 1..6 and size 1..30, the same made indefinite at a chosen column, with non-positive diagonal, '
         'with NaN/inf entries. A case is non-trivial when fit reaches the assembly (nn >= nord) or cholesky_band gets a matrix; '
-        'distinct = distinct case payloads')
+        'distinct = distinct case payloads. Exact run (fitq): the first 60 (thorough: 1500) generated fit cases that are well-posed '
+        '(class well of the independent analysis) with at most 40 points and 12 coefficients are run again through the model in '
+        'exact rational arithmetic and compared with an exact Fraction solution of the normal equations')
 TRUSTED = ['hand-written model lean/PydlVerif/Model/BSplineFit.lean (on Model/BSpline.lean of C08) tied to the code by the I/O correspondence of this run',
            'scipy.linalg.cholesky_banded / cho_solve_banded (LAPACK) are parameters of the model with the contract L L^T = A, A x = b '
            '(assumed in the theorems, sampled here through the residuals); the Lean driver runs textbook stand-ins, compared within tolerance',
            'np.argsort returns a sorting permutation; np.dot / sum (BLAS order) compared within tolerance',
-           'scipy.interpolate.BSpline.design_matrix and numpy.linalg.lstsq as the independent oracle']
+           'scipy.interpolate.BSpline.design_matrix and numpy.linalg.lstsq as the independent oracle',
+           'exact run: the Lean driver supplies banded LDL^T kernels over Rat (not part of the model; their result is checked on every '
+           'case against exact Gaussian elimination in Python fractions.Fraction on an independently built design matrix); Lean core Rat '
+           'and Python Fraction arithmetic; the fallback loop of cholesky_band (needs sqrt) is never run exactly']
 ASSUMPTIONS = ['x2=None, npoly=1 (1-D B-splines); xdata sorted, finite float64; ydata finite; invvar >= 0 finite',
                'the first nord breakpoints are never masked (true for every mask that maskpoints produces)',
                '"every segment supported by data" is taken as: every diagonal entry of A^T W A exceeds 1000 x the code threshold '
@@ -425,6 +439,196 @@ def run_fit_rounds(ctx, cases, maxrounds=40):
         ctx.violate('fit:refit-does-not-terminate', 'status -1 for %d rounds' % maxrounds, live[0])
 
 
+# ---------------------------------------------------------------- exact (rational) run of the model's fit
+FITQ_MAX_NX, FITQ_MAX_N = 40, 12
+
+
+def _fr(bits):
+    """exact values of 64-bit patterns (finite doubles) as Fractions"""
+    from fractions import Fraction
+    return [Fraction(core.b2f(b)) for b in bits]
+
+
+def _q(v):
+    """[num, den] of the driver -> Fraction"""
+    from fractions import Fraction
+    return Fraction(int(v[0]), int(v[1]))
+
+
+def design_exact(t, k, xs):
+    """exact design matrix by the Cox-de Boor recursion in Fractions (no pydl, no model, no scipy):
+    rows of (first column, the k values B_{i-k+1..i,k}(x)) with i the knot interval of x in the code's
+    left-continuous convention (a point on an interior breakpoint belongs to the interval on its left, the first
+    breakpoint t[k-1] to the first interval); 0/0 := 0"""
+    from fractions import Fraction
+    n = len(t) - k
+    rows = []
+    for x in xs:
+        i = k - 1
+        for j in range(k - 1, n):
+            if t[j] < x:
+                i = j
+        # order 1: the indicator of interval i; then B_{j,m} = w_{j,m} B_{j,m-1} + (1 - w_{j+1,m}) B_{j+1,m-1}
+        B = {i: Fraction(1)}
+        for m in range(2, k + 1):
+            Bn = {}
+            for j in range(i - m + 1, i + 1):
+                v = Fraction(0)
+                a, b = B.get(j), B.get(j + 1)
+                if a is not None and a != 0 and j >= 0 and t[j + m - 1] != t[j]:
+                    v += (x - t[j]) / (t[j + m - 1] - t[j]) * a
+                if b is not None and b != 0 and j + m < len(t) and t[j + m] != t[j + 1]:
+                    v += (t[j + m] - x) / (t[j + m] - t[j + 1]) * b
+                Bn[j] = v
+            B = Bn
+        rows.append((i - k + 1, [B.get(j, Fraction(0)) for j in range(i - k + 1, i + 1)]))
+    return rows
+
+
+def solve_exact(case):
+    """the exact weighted least-squares problem of a fit case and its solution (Gaussian elimination in Fractions):
+    dict with G (n x n), rhs, sol, rows; `pd` False when a pivot is not positive"""
+    from fractions import Fraction
+    k = case['nord']
+    mask = case['mask']
+    t = [v for v, m in zip(_fr(case['bk']), mask) if m]
+    x, y, w = _fr(case['x']), _fr(case['y']), _fr(case['w'])
+    n = len(t) - k
+    rows = design_exact(t, k, x)
+    G = [[Fraction(0)] * n for _ in range(n)]
+    rhs = [Fraction(0)] * n
+    for (c0, vals), yp, wp in zip(rows, y, w):
+        if wp == 0:
+            continue
+        for a, va in enumerate(vals):
+            if va == 0:
+                continue
+            wa = wp * va
+            rhs[c0 + a] += wa * yp
+            for b_, vb in enumerate(vals):
+                G[c0 + a][c0 + b_] += wa * vb
+    out = {'G': G, 'rhs': rhs, 'rows': rows, 'n': n, 'pd': True}
+    M = [r[:] + [b_] for r, b_ in zip(G, rhs)]
+    for j in range(n):
+        if not M[j][j] > 0:
+            out['pd'] = False
+            return out
+        for i in range(j + 1, n):
+            if M[i][j] != 0:
+                f = M[i][j] / M[j][j]
+                for c in range(j, n + 1):
+                    M[i][c] -= f * M[j][c]
+    sol = [Fraction(0)] * n
+    for i in range(n - 1, -1, -1):
+        sol[i] = (M[i][n] - sum((M[i][c] * sol[c] for c in range(i + 1, n)), Fraction(0))) / M[i][i]
+    out['sol'] = sol
+    return out
+
+
+def fitq_select(cases, cap):
+    """small well-posed fit cases for the exact run"""
+    out = []
+    for c in cases:
+        if len(out) >= cap:
+            break
+        if c.get('stream') != 'fit' or len(c['x']) > FITQ_MAX_NX or sum(c['mask']) - c['nord'] > FITQ_MAX_N:
+            continue
+        if analyse(c)['cls'] == 'well':
+            out.append(dict(c, stream='fitq'))
+    return out
+
+
+def check_fitq(ctx, case, model):
+    """one exact case: model (Rat) == independent exact oracle; real float fit close to the exact solution"""
+    from fractions import Fraction
+    ctx.seen(case)
+    k = case['nord']
+    info = analyse(case)
+    if info['cls'] != 'well':
+        ctx.count('fitq:not-well-skipped')
+        return
+    ex = solve_exact(case)
+    n = ex['n']
+    if not ex['pd']:
+        ctx.count('fitq:oracle-not-positive-definite-skipped')
+        return
+    ctx.count('fitq:exact-cases')
+    ctx.count('fitq:k=%d' % k)
+    # ---------------- (i) + (ii): the exact model against the exact oracle
+    if 'ok' not in model or not model.get('exact'):
+        ctx.disagree('fitq:status', case, {'oracle': 'A^T W A positive definite, exact solution exists'},
+                     {k_: v for k_, v in model.items() if k_ != 'ok'})
+        return
+    M = model['ok']
+    if M['status'] != 0 or M['mask'] != case['mask']:
+        ctx.disagree('fitq:status', case, {'status': 0, 'mask': 'unchanged'}, {'status': M['status'], 'mask': M['mask']})
+        return
+    gm = case['mask'][k:]
+    mc = [_q(v) for v in M['coeff']]
+    c_in = _fr(case['coeff'])
+    good = [i for i, g in enumerate(gm) if g]
+    sol = ex['sol']
+    bits = max([v.denominator.bit_length() for v in sol] + [0])
+    ctx.coverage['fitq:max-denominator-bits'] = max(ctx.coverage.get('fitq:max-denominator-bits', 0), bits)
+    if len(mc) != len(c_in) or [mc[i] for i in good] != sol or any(mc[i] != c_in[i] for i in range(len(mc)) if not gm[i]):
+        ctx.disagree('fitq:coeff-exact', case, {'coeff(oracle, exact, shown as float)': [float(v) for v in sol]},
+                     {'coeff(model, exact, shown as float)': [float(v) for v in mc]})
+        return
+    # alpha = lower band of G (bw x (n+bw), zero beyond), beta = rhs padded with bw zeros
+    G, rhs = ex['G'], ex['rhs']
+    al = [[_q(v) for v in r] for r in M['alpha']]
+    be = [_q(v) for v in M['beta']]
+    band = [[G[c + r][c] if c + r < n else Fraction(0) for c in range(n + k)] for r in range(k)]
+    if al != band or be != rhs + [Fraction(0)] * k:
+        ctx.disagree('fitq:alpha-beta-exact', case, {'G': 'exact A^T W A / A^T W y of the oracle'}, {'alpha/beta': 'differ'})
+        return
+    # yfit of the model = the exact spline of the exact coefficients at the data
+    yq = [sum((v * sol[c0 + a] for a, v in enumerate(vals)), Fraction(0)) for c0, vals in ex['rows']]
+    my = [_q(v) for v in M['yfit']]
+    if my != yq:
+        ctx.disagree('fitq:yfit-exact', case, {'yfit(oracle)': [float(v) for v in yq]}, {'yfit(model)': [float(v) for v in my]})
+        return
+    ctx.count('fitq:model==oracle-exactly')
+    # ---------------- (iii) the real float fit against the exact solution
+    impl = impl_fit(case)
+    if 'err' in impl or impl['ok']['status'] != 0:
+        return      # reported by the fit stream (fit:<exception> / fit:status:well-posed-reported-as-..)
+    y = bf_(case['y'])
+    ys = max(1e-300, float(np.max(np.abs(y))))
+    tol = 100 * tol_of(info)
+    gc = np.array(impl['ok']['coeff'])[np.array(gm, dtype=bool)]
+    solf = np.array([float(v) for v in sol])
+    if not vclose(gc, solf, tol, ys):
+        ctx.violate('fit:coeff:differs-from-exact-solution', 'coefficients differ from the exact (rational) solution of the normal '
+                    'equations by %.3g (cond %.3g, tolerance %.3g relative to %.3g)' % (float(np.max(np.abs(gc - solf))), info['cond'], tol, ys), case)
+    elif not vclose(impl['ok']['yfit'], [float(v) for v in yq], tol, ys):
+        ctx.violate('fit:yfit:differs-from-exact-solution', 'yfit differs from the exact spline of the exact solution by %.3g' % float(
+            np.max(np.abs(np.array(impl['ok']['yfit']) - np.array([float(v) for v in yq])))), case)
+    else:
+        ctx.count('fitq:float-fit-close-to-exact')
+        err = float(np.max(np.abs(gc - solf))) / max(ys, float(np.max(np.abs(solf))))
+        ctx.coverage['fitq:max-rel-error-of-float-fit'] = max(ctx.coverage.get('fitq:max-rel-error-of-float-fit', 0.0), err)
+
+
+def run_fitq(ctx, cases):
+    """exact run of the model's fit (op fitq) on small well-posed cases"""
+    import sys
+    if not cases:
+        return
+    lines = [dict(fit_line(c), op='fitq') for c in cases]
+    old = sys.get_int_max_str_digits()
+    sys.set_int_max_str_digits(0)       # the exact answers have numerators of several thousand digits
+    try:
+        models = core.driver_parallel(lines, workers=16, chunk=max(1, min(25, (len(lines) + 15) // 16)))
+        for c, m in zip(cases, models):
+            if 'driver_error' in m:
+                ctx.disagree('fitq:driver', c, {}, m)
+                continue
+            check_fitq(ctx, c, m)
+    finally:
+        sys.set_int_max_str_digits(old)
+
+
 # ---------------------------------------------------------------- cholesky_band / cholesky_solve
 def band_of(A, bw):
     n = A.shape[0]
@@ -608,6 +812,7 @@ def run(ctx):
     l[1, :4] = 2
     chols.append({'stream': 'chol', 'kind': 'd7', 'bw': 2, 'n': 5, 'l': [fb(r) for r in l], 'mininf': core.f2b(0.0), 'b': fb([1, 2, 3, 4, 5, 0, 0])})
     run_chol(ctx, chols)
+    run_fitq(ctx, fitq_select(fits, ctx.n(60, 1500)))
     if ctx.disagreements:
         directed_search(ctx)
 
@@ -647,6 +852,8 @@ def replay(ctx, case):
         run_fit_rounds(ctx, [case])
     elif case.get('stream') == 'chol':
         run_chol(ctx, [case])
+    elif case.get('stream') == 'fitq':
+        run_fitq(ctx, [case])
     else:
         run(ctx)
 
@@ -657,18 +864,31 @@ LEVEL_TEXT = ('Machine-checked Lean 4 theorems over an executable model of bspli
               'A x = b - a hypothesis), a status-0 fit satisfies the normal equations and minimises sum invvar*(y - spline(x))^2 over ALL '
               'coefficient vectors, spline being the function value() evaluates (C08: the Cox-de Boor spline); the assembled system does not see '
               'y at zero-weight points; the fit is linear in y; data from the spline space - in particular constants - are reproduced at every '
-              'positively weighted point. Status table: fewer than nord good breakpoints -> -2 unchanged object; cholesky_band never fails and '
+              'positively weighted point. Extension: for sorted abscissae the lower/upper bookkeeping of action() is PROVED to delimit the segments '
+              '(rows_action, from C08 rowsOf_action), so fit_optimum_sorted / fit_normal_sorted / fit_zero_weight_sorted / fit_linear_sorted / '
+              'fit_exact_sorted hold with the LAPACK contract as the only hypothesis; Marsden\'s identity is proved for the model\'s Cox-de Boor '
+              'pieces (marsden), hence every polynomial of degree < nord lies in the spline space with explicit coefficients (monomial_reproduction, '
+              'poly_in_span, spline_of_poly) and is reproduced by the fit at every positively weighted point (poly_reproduction_all/_sorted); '
+              'fit_is_optimum / fit_is_optimum_obj / fit_reproduces_poly state optimality and polynomial reproduction about the model function '
+              'fit itself: status 0 + "the vector cholesky_solve returned solves the system assembled in this call" => the object fit returns '
+              '(coefficients read back through putGood/goodcoeff, the accessor of C08 value_is_spline) minimises the objective. Status table: fewer than nord good breakpoints -> -2 unchanged object; cholesky_band never fails and '
               'answers a factor, the screened column list (diagonal <= mininf or non-finite) or one fallback column j < n; maskpoints answers '
               '-1 (mask only shrinks, never the first/last nord good breakpoints) or -2 (mask unchanged); fit answers 0, -1 or -2 and on 0 '
               'stores the solution cholesky_solve returns for the assembled system. Tied to the repository on every run by I/O correspondence '
               '(status and masks exact, coefficients/yfit within tolerance, refit rounds, the model normal equations against an independent '
               'A^T W A) and by an independent oracle (scipy design matrix + dense lstsq, objective, zero-weight invariance, linearity, polynomial '
               'reproduction up to degree nord-1, Cholesky residuals, leading-minor test of the reported column, no exception / no non-finite '
-              'coefficient on every ill-posed class).')
-LEVEL_NOTE = ('Partial: LAPACK (cholesky_banded / cho_solve_banded) enters only through the hypothesis CholContract - sampled by the residual '
-              'checks, never proved; the Lean driver runs textbook stand-ins for it. Rows (lower/upper delimit the points of each segment, C08 '
-              'RowsOf) is a hypothesis re-checked on the real action() output by C08 on every run. Polynomial reproduction is proved for degree 0 '
-              'and for every element of the spline space; that polynomials of degree 1..nord-1 lie in the space (Marsden) is checked by the '
-              'oracle only. x2 / npoly > 1 are outside the statement. Theorems are over exact ordered fields: rounding, the 1e-10 influence '
-              'threshold near equality and near-singular systems (class "marginal": only no-exception / finite output is required) are outside '
-              'them. No exact (Rat) run for this property (the Cholesky kernels need sqrt).')
+              'coefficient on every ill-posed class), and by an EXACT run (stream fitq): the same model fit executed in rational arithmetic on small '
+              'well-posed problems equals, number for number, an independent exact solution of the normal equations (Cox-de Boor recursion and '
+              'Gaussian elimination in Fractions) - alpha, beta, coefficients and yfit - and the float fit of the real code lies within tolerance of it.')
+LEVEL_NOTE = ('Partial: LAPACK (cholesky_banded / cho_solve_banded) enters only through the hypothesis CholContract (resp. hsolve of fit_is_optimum: '
+              'the returned vector solves the assembled banded system) - sampled by the residual checks, never proved; the Lean driver runs '
+              'textbook stand-ins for it. Rows is no longer a hypothesis for sorted abscissae (rows_action); the general forms over arbitrary '
+              'lower/upper keep it. Polynomial reproduction is now proved for every degree < nord (Marsden), for knots non-decreasing with '
+              't[nord-1] < t[nord] and points inside the breakpoint range. hsolve speaks of alpha/beta as the assemble functions, the kernel call '
+              'gets the arrays normalSystem materialises from them; no end-to-end instance of fit_is_optimum is evaluated inside Lean (the field '
+              'interpretation is noncomputable). x2 / npoly > 1 are outside the statement. Theorems are over exact ordered fields: rounding, the '
+              '1e-10 influence threshold near equality and near-singular systems (class "marginal": only no-exception / finite output is '
+              'required) are outside them. Exact (Rat) run: only for small well-posed problems and only up to the factorisation kernel - the driver '
+              'supplies a square-root-free banded LDL^T pair as the kernel parameter of the Rat interpretation (not part of the model); the '
+              'fallback loop of cholesky_band (needs sqrt) is never run exactly.')
